@@ -117,7 +117,32 @@ def pad_counts(ctx):
            ctx.loc(fi), sample='to_pad = -N % D')
     if dkind == 'pjit':
       # N == 0 special case: some value of the function chooses the device count itself when there is nothing to pad
-      special = any(x.op == 'ite' and any(y.op == 'sym' and y.args[-1] == 'num_devices_for_pjit' for y in (x.args[1], x.args[2])) for x in allv)
+      # ... and it must choose it exactly then: the arm holding D is the one taken when there are no statistics
+      def _when_empty(c):
+        """truth value of the test `c` when no parameter is preconditioned (None: not an emptiness test)"""
+        c = strip_casts(c)
+        if c.op == 'un' and c.args[0] == 'not':
+          v = _when_empty(c.args[1])
+          return None if v is None else not v
+        if c.op in ('list', 'mut', 'phi', 'loop') or (c.op == 'bin' and c.args[0] == '+' and any(y.op in ('list', 'mut') for y in c.args[1:])):
+          return False                      # truthiness of the (empty) list / of a zero count
+        if c.op == 'cmp' and len(c.args) == 3:
+          o, a_, b_ = c.args
+          if is_const(a_, 0):
+            a_, b_ = b_, a_
+            o = {'<': '>', '>': '<', '<=': '>=', '>=': '<='}.get(o, o)
+          if is_const(b_, 0) and not is_const(a_):
+            return {'==': True, '!=': False, '>': False, '<=': True, '>=': True, '<': False}.get(o)
+        return None
+      isD = lambda y: y.op == 'sym' and y.args[-1] == 'num_devices_for_pjit'
+      cands = [x for x in dict.fromkeys(allv) if x.op == 'ite' and len(x.args) == 3 and any(isD(y) for y in x.args[1:]) and
+               any(any(z in mods for z in walk(y)) for y in x.args[1:] if not isD(y))]
+      special = bool(cands)
+      for x in cands:
+        v = _when_empty(x.args[0])
+        d_arm_is_true = isD(x.args[1])
+        if v is None or v != d_arm_is_true:
+          special = False
       ctx.ob('C13.P1', fi.short, 'no statistics at all: pad to D', special,
              'when no parameter is preconditioned the global arrays must still have D (dummy) rows, in init, declaration and update alike', ctx.loc(fi),
              sample='N == 0 -> to_pad = num_devices_for_pjit')
